@@ -12,6 +12,8 @@ def make_wl(rng, k):
     spec["intergenic"] = rng.choice([0, 2, 4])
     spec["dup_records"] = rng.choice([0, 0, 1, 2])
     spec["unmapped"] = rng.choice([0, 1, 4])
+    spec["long_locus"] = 1 if (k is not None and k % 2 == 0) or rng.random() < 0.4 else 0
+    spec["intergenic_multi"] = rng.choice([0, 1, 2])
     return spec, opts
 
 
